@@ -184,6 +184,23 @@ def misuse(ctx):
         expect_value_error(rep, 'R-MISUSE', 'finite_difference.LogRule._multicomplex_middle_name', fd.relpath,
                            'Derivative(method=multicomplex, n=%d) after legal calls with n = 1, 2 in the same process' % n, thunk_h,
                            'multicomplex n>2')
+    # ... and when the illegal configuration is reached through the setters of an existing object
+    for n in (3, 4, 5):
+        for route in ('n set afterwards', 'method set afterwards'):
+            Ps = Pipeline(repo)
+
+            def thunk_s(Ps=Ps, n=n, route=route):
+                if route == 'n set afterwards':
+                    obj, x = Ps.build('Derivative', 'multicomplex', 2, n=2, step=Ps.sym_generator('Min'))
+                    estimates(Ps.interp, obj, x)
+                    Ps.interp.setattr(obj, 'n', n)
+                else:
+                    obj, x = Ps.build('Derivative', 'central', 2, n=n, step=Ps.sym_generator('Min'))
+                    estimates(Ps.interp, obj, x)
+                    Ps.interp.setattr(obj, 'method', 'multicomplex')
+                return estimates(Ps.interp, obj, x)
+            expect_value_error(rep, 'R-MISUSE', 'finite_difference.LogRule._multicomplex_middle_name', fd.relpath,
+                               'Derivative: multicomplex with n=%d, %s' % (n, route), thunk_s, 'multicomplex n>2')
     # fewer steps than the rule needs
     for method, n, order, steps in (('central', 3, 4, 2), ('forward', 2, 3, 3), ('complex', 5, 4, 1), ('central', 1, 6, 2)):
         P = Pipeline(repo)
